@@ -426,7 +426,26 @@ def exec_handler_sites(c: Ctx) -> tuple[Unit, list[ast.Call]]:
     u = c.unit(SVC, 'EventBus._execute_handlers')
     target = c.unit(SVC, 'EventBus.execute_handler')
     sites = [call for cu, call in c.cg.callers(target) if cu.key == u.key]
+    # a nested coroutine of _execute_handlers that awaits execute_handler exactly once on every path is a wrapper of it: the calls of the wrapper are the sites
+    for w in c.prog.nested(u):
+        inner = [call for cu, call in c.cg.callers(target) if cu.key == w.key]
+        if not inner or not w.is_async:
+            continue
+        gw = c.cfg(w)
+        call_nodes = {n.id for n in gw.live_nodes() if q.node_calls(n, 'execute_handler')}
+        from sa.cfg import search
+
+        skip = search([(gw.entry, ())], is_target=lambda n, d: n.kind == 'exit', is_barrier=lambda n, d: n.id in call_nodes, edge_ok=lambda n, e, d: None if e.is_exc else d)
+        if skip is not None or any(not isinstance(parent_of(x), ast.Await) for x in inner):
+            c.fail(w, f'{w.name} does not await execute_handler on every path', 'a handler can be skipped by its wrapper', node=inner[0], witness=c.path(gw.entry, skip) if skip else [])
+            continue
+        HANDLER_WRAPPERS[id(c.prog)] = HANDLER_WRAPPERS.get(id(c.prog), {})
+        HANDLER_WRAPPERS[id(c.prog)][w.name] = w
+        sites += [call for cu, call in c.cg.callers(w) if cu.key == u.key]
     return u, sorted(sites, key=lambda x: x.lineno)
+
+
+HANDLER_WRAPPERS: dict[int, dict[str, Unit]] = {}
 
 
 @ob('C01.4', 'SHAPE/ESC', 'both branches of _execute_handlers iterate all applicable handlers; each iteration makes exactly one execute_handler call; no '
@@ -552,6 +571,16 @@ def check_handler_loop(c: Ctx, u: Unit, g, loop: ast.For, inner: ast.AST, what: 
             if e.is_exc and not H.is_sub(e.exc.name, 'Exception') and not (not e.exc.exact and H.is_sub('Exception', e.exc.name)):
                 continue  # cancellation / BaseException leaves the loop: allowed
             bad.append((n, e))
+    # every iteration performs it: no path from the start of the body back to the loop head avoids the call (a `continue` under some flag skips a handler)
+    inner_nodes = {n.id for n in g.live_nodes() if n.ast is not None and any(x is inner for x in ast.walk(n.ast)) and n.id in body}
+    if inner_nodes:
+        from sa.cfg import search as _search
+
+        starts = [e.dst for e in head.succ if e.label == 'iter' and e.dst.id not in inner_nodes]
+        skip = _search([(s_, ()) for s_ in starts], is_target=lambda n, d: n is head, is_barrier=lambda n, d: n.id in inner_nodes, edge_ok=lambda n, e, d: None if e.is_exc else d) if starts else None
+        if skip is not None:
+            c.fail(u, f'an iteration of the loop over {U(loop.iter)} can skip `{what}`', f'a handler can be skipped: some path through the loop body reaches the next iteration without `{what}`', node=loop,
+                   witness=c.path(starts[0], skip))
     if not bad:
         c.ok(where(u, loop), f'loop over {U(loop.iter)}: one `{what}` per iteration; only cancellation can leave the loop early', body_nodes=len(body))
     for n, e in bad:
@@ -698,6 +727,7 @@ def c01_7(c: Ctx) -> None:
     stop = c.unit(SVC, 'EventBus.stop')
     init = c.unit(SVC, 'EventBus.__init__')
     temp = [v.name for v in c.prog.nested(ex) if not v.is_async]
+    check_on_always_registers(c)
     for w in ws:
         okw = False
         why = ''
@@ -716,6 +746,24 @@ def c01_7(c: Ctx) -> None:
             c.ok(where(w.unit, w.node), why)
         else:
             c.fail(w.unit, f'mutates the handler registry ({w.how}): {U(w.node)[:70]}', f'handlers are removed / replaced / re-ordered in {w.unit.qualname}: a registered handler can be skipped for later events', node=w.node)
+
+
+def check_on_always_registers(c: Ctx) -> None:
+    """on() files the handler on every path that returns normally (a policy that skips a registration — e.g. because a handler of the same *name* exists — drops somebody's handler)."""
+    on = c.unit(SVC, 'EventBus.on')
+    g = c.cfg(on)
+    regs = {n.id for n in g.live_nodes() if any(call_name(x) in ('append', 'setdefault', 'insert') and isinstance(x.func, ast.Attribute) and 'handlers' in U(x.func.value) for x in q.node_calls(n))}
+    if not regs:
+        c.fail(on, 'on() never appends to self.handlers', 'handlers are not registered')
+        return
+    from sa.cfg import search
+
+    p = search([(g.entry, ())], is_target=lambda n, d: n.kind == 'exit', is_barrier=lambda n, d: n.id in regs, edge_ok=lambda n, e, d: None if e.is_exc else d)
+    if p is None:
+        c.ok(where(on), 'every normal return of on() has appended the handler to self.handlers[key]')
+    else:
+        c.fail(on, 'on() can return without registering the handler', 'a handler passed to on() (in particular expect()\'s temporary handler, whose generated name collides between concurrent calls) is silently not '
+               'registered: it is never delivered / expect() times out although a matching event was processed', witness=c.path(g.entry, p))
 
 
 @ob('C01.8', 'MPT', 'a dispatch that returns normally has enqueued the event (same obligation as C14.3): otherwise an "accepted" event is delivered to no handler')
